@@ -482,7 +482,7 @@ def _target_ctx_ok(ctx, g, asdl, fn, cfg, fdefs, ctor, target, prods, kind):
 
 META = {
     "technique": "static analysis over the effective PLY grammar (dumped from the working tree; LALR table generated to find live productions) and MRO-resolved action ASTs, with the running interpreter's ast/token/keyword modules and ast._Unparser tables as oracles",
-    "text": "Not tree equality for all programs (undecidable here) but ten necessary conditions, each checked for "
+    "text": "Not tree equality for all programs (undecidable here) but eleven necessary conditions, each checked for "
     "every live production/action rather than for sampled one-liners: every concrete node kind reachable from `mod` "
     "is constructed somewhere; every operator/delimiter spelling and keyword of the interpreter reaches a live "
     "production; the four operator tables and the inline operator constructions agree with ast._Unparser's "
@@ -492,7 +492,8 @@ META = {
     "int fields are computed where the production admits several values; the trailing-comma slot of tuple-forming "
     "productions is read; dict-valued semantic values (comprehension clauses, call arguments, yield arguments: field "
     "sets computed by fixpoint over the effective grammar) have every field read, or are handed on whole, on every "
-    "path on which the field can be present; thorough: the table on disk carries the working tree's grammar signature. Known findings: "
+    "path on which the field can be present; the tokenizer's backslash-continuation flag never outlives its "
+    "string on an error-free path (typestate over flag x accumulator-non-empty); thorough: the table on disk carries the working tree's grammar signature. Known findings: "
     "`**kw: T` after `*args` is not annotatable (vfpdef in a typedargslist production), `for i, in xs`.",
     "note": "Decides the listed structural clauses, not the behaviour. The grammar is read by importing "
     "xonsh.parsers from the analysed tree in a helper subprocess (static initialisers and grammar templating only).",
